@@ -67,6 +67,7 @@ def check(prog: Program, tier: str) -> Result:
     P_ = Rat.atom("PREV_END")
     seen5 = set()
     n5 = 0
+    n5_all = 0
     for p in ma.paths:
         if p.clamped or len(p.hours) < 2 or any(not isinstance(h_, Rat) for h_ in p.hours):
             continue
@@ -76,6 +77,7 @@ def check(prog: Program, tier: str) -> Result:
         hs = [h_.subs(mapping) for h_ in p.hours]
         for k_ in range(1, len(hs)):
             d_ = hs[k_] - hs[k_ - 1]
+            n5_all += 1
             if lmh.key() in d_.key():
                 continue  # the distance to the month end depends on the month length: hypothesis (window inside the month)
             sg = p.state.sign_of(d_)
@@ -90,8 +92,9 @@ def check(prog: Program, tier: str) -> Result:
                 res.violation("R08.5", f"order|{p.signature()}|{k_}|{d_.key()[:80]}", hc.path_where(prog, ma, p, len(p.nodes) - 1), fi.qualname,
                               f"on the path [{p.signature()}] breakpoint {k_} minus breakpoint {k_ - 1} is {d_.key()[:160]}, which is never positive: the time axis goes backwards (or stalls) whatever the durations are")
     res.ob("R08.5", f"no consecutive breakpoints of a month are provably out of order ({n5} differences examined)", not any(f.rule == "R08.5" for f in res.findings), prog.loc(fi, ma.loop))
-    res.count("breakpoint_differences", n5)
-    res.floor("breakpoint_differences", 10)
+    res.count("breakpoint_differences_decidable", n5)
+    res.count("breakpoint_differences", n5_all)
+    res.floor("breakpoint_differences", 15)
 
     # ---- R08.2 closing on every path (including clamped ones)
     seen = set()
